@@ -100,6 +100,7 @@ func (w *World) CG() *CallGraph {
 	if w.cg != nil {
 		return w.cg
 	}
+	worldForRecv = w
 	cg := &CallGraph{w: w, Sites: map[*ssa.Function][]*Site{}, Refs: map[*ssa.Function][]*ssa.Function{}, Callers: map[*ssa.Function][]*Site{}, impls: map[string][]*ssa.Function{}}
 	w.cg = cg
 	// 1. function values
